@@ -118,6 +118,76 @@ def exact_eq(a, b):
     return all(bool(t) for t in terms)
 
 
+_CD_CACHE = {}
+
+
+def clear_denominators(t):
+    """(numerator, denominator) z3 terms, both division-free, with t == numerator / denominator wherever the denominators occurring
+    in t are non-zero (sums, products, quotients, integer powers and unary minus of real terms; anything else is an atom)."""
+    k = t.get_id()
+    if k in _CD_CACHE:
+        return _CD_CACHE[k][1:]
+    one = z3.RealVal(1)
+    kind = t.decl().kind() if z3.is_app(t) else None
+    ch = t.children() if z3.is_app(t) else []
+    if kind == z3.Z3_OP_ADD:
+        parts = [clear_denominators(c) for c in ch]
+        dens = {}
+        for n, d in parts:
+            dens[d.get_id()] = d
+        dl = list(dens.values())
+        den = dl[0] if len(dl) == 1 else z3.Product(*dl)
+        nums = []
+        for n, d in parts:
+            others = [x for x in dl if x.get_id() != d.get_id()]
+            nums.append(n if not others else n * (others[0] if len(others) == 1 else z3.Product(*others)))
+        res = (z3.Sum(*nums), den)
+    elif kind == z3.Z3_OP_MUL:
+        parts = [clear_denominators(c) for c in ch]
+        res = (z3.Product(*[n for n, d in parts]), z3.Product(*[d for n, d in parts]))
+    elif kind == z3.Z3_OP_DIV:
+        (n1, d1), (n2, d2) = clear_denominators(ch[0]), clear_denominators(ch[1])
+        res = (n1 * d2, d1 * n2)
+    elif kind == z3.Z3_OP_UMINUS:
+        n, d = clear_denominators(ch[0])
+        res = (-n, d)
+    elif kind == z3.Z3_OP_SUB:
+        return clear_denominators(ch[0] + z3.Sum(*[-c for c in ch[1:]]))
+    elif kind == z3.Z3_OP_POWER and z3.is_int_value(z3.simplify(ch[1])) and z3.simplify(ch[1]).as_long() >= 0:
+        n, d = clear_denominators(ch[0])
+        e = z3.simplify(ch[1]).as_long()
+        res = (z3.Product(*([n] * e)) if e else one, z3.Product(*([d] * e)) if e else one)
+    elif kind == z3.Z3_OP_TO_REAL:
+        res = (t, one)
+    else:
+        res = (t, one)
+    res = (z3.simplify(res[0]), z3.simplify(res[1]))
+    _CD_CACHE[k] = (t,) + res
+    return res
+
+
+def rational_eq(a, b):
+    """a == b componentwise for rational functions: both sides are brought to numerator / denominator form, cross-multiplied and the
+    difference is normalised by z3's simplifier (sum of monomials).  Sound wherever the denominators are non-zero (the harness states
+    that: denominators are monomials in positive variables or sums of such)."""
+    a = _np.asarray(a, dtype=object)
+    b = _np.asarray(b, dtype=object)
+    if a.shape != b.shape:
+        return False
+    terms = []
+    for x, y in zip(a.flat, b.flat):
+        if not isinstance(x, Sym) and not isinstance(y, Sym):
+            terms.append(x == y)
+            continue
+        n1, d1 = clear_denominators(core.toz(x) if not isinstance(x, Sym) else x.z)
+        n2, d2 = clear_denominators(core.toz(y) if not isinstance(y, Sym) else y.z)
+        z = z3.simplify(n1 * d2 - n2 * d1, som=True)
+        terms.append(SymBool(z == 0))
+    if any(isinstance(t, SymBool) for t in terms):
+        return core.And(*terms)
+    return all(bool(t) for t in terms)
+
+
 def poly_eq(a, b):
     """a == b componentwise for polynomial terms, each difference brought to sum-of-monomials normal form by z3's simplifier
     first (an identity then simplifies to `0 == 0`; nlsat alone does not finish on identities in 20+ variables)"""
